@@ -3,6 +3,7 @@ package c16
 import (
 	"fmt"
 	"math"
+	"strings"
 
 	ad "github.com/pbenner/autodiff"
 	stat "github.com/pbenner/autodiff/statistics"
@@ -193,37 +194,88 @@ func judgeEstimate(cs *fw.Case, sigBase string, fam family, theta []float64, d *
 		return
 	}
 	cs.Cover("judged-estimates")
+	// Gamma: magnitude of the log-weights.  The weights enter as exp(gamma_i), so
+	// a relative rounding of gamma_i moves w_i by eps*|gamma_i|: the parameters
+	// are determined by the data only up to r_k = 8*eps*(1+Gamma)*|theta_k|
+	// (condition of the estimate with respect to its inputs, DESIGN.md 2.4)
+	Gamma := 0.0
+	for _, g := range d.Gamma {
+		if !math.IsInf(g, 0) && math.Abs(g) > Gamma {
+			Gamma = math.Abs(g)
+		}
+	}
 	np := fam.nparams(theta)
 	reported := map[string]bool{}
+	type side struct {
+		tp    []float64
+		L, a  float64
+		ok    bool
+		delta float64
+	}
 	for k := 0; k < np; k++ {
 		sc := fam.scale(theta, k)
 		if !(sc > 0) || math.IsInf(sc, 0) {
 			sc = 1
 		}
 		for _, rel := range []float64{1e-3, 1e-5} {
-			for _, sign := range []float64{1, -1} {
-				tp := fam.perturb(theta, k, sign*rel*sc)
-				if tp == nil {
+			var sides [2]side
+			for si, sign := range []float64{1, -1} {
+				sd := &sides[si]
+				sd.delta = sign * rel * sc
+				sd.tp = fam.perturb(theta, k, sd.delta)
+				if sd.tp == nil {
 					continue
 				}
-				if !fam.admissible(tp) {
+				if !fam.admissible(sd.tp) {
 					cs.Cover("perturbation:projected-onto-bound")
 					continue
 				}
-				L1, a1, ok := fam.loglik(tp, d)
-				if !ok {
+				sd.L, sd.a, sd.ok = fam.loglik(sd.tp, d)
+				if !sd.ok {
 					cs.Cover("perturbation:outside-domain")
+				}
+			}
+			// curvature along the direction (second difference)
+			D2 := 0.0
+			switch {
+			case sides[0].ok && sides[1].ok:
+				D2 = math.Abs(sides[0].L + sides[1].L - 2*L0)
+			case sides[0].ok:
+				D2 = 2 * math.Abs(sides[0].L-L0)
+			case sides[1].ok:
+				D2 = 2 * math.Abs(sides[1].L-L0)
+			}
+			for _, sd := range sides {
+				if !sd.ok {
+					continue
+				}
+				// resolution of the parameters that move in this direction
+				rk := 0.0
+				for q := range sd.tp {
+					if sd.tp[q] != theta[q] {
+						if r := 8 * eps * (1 + Gamma) * math.Abs(theta[q]); r > rk {
+							rk = r
+						}
+					}
+				}
+				if rk >= math.Abs(sd.delta) {
+					cs.Cover("perturbation:below-parameter-resolution")
 					continue
 				}
 				cs.Cover("perturbation:evaluated")
-				allow := K * eps * (a0 + a1)
-				if L1-L0 > allow || (math.IsInf(L0, -1) && !math.IsInf(L1, -1)) {
+				allow := K*eps*(a0+sd.a) + D2*rk/math.Abs(sd.delta)
+				if sd.L-L0 > allow || (math.IsInf(L0, -1) && !math.IsInf(sd.L, -1)) {
 					name := pname(k)
+					kindSig := "|not-maximal:" + name
+					if strings.Contains(sigBase, "-moments|") {
+						kindSig = "|not-maximal"
+						name = "*"
+					}
 					if !reported[name] {
 						reported[name] = true
-						cs.Violation(sigBase+"|not-maximal:"+name,
-							fmt.Sprintf("weighted log-likelihood at the estimate %s is %.17g; at the admissible point %s (direction %s, step %+.3g) it is %.17g: larger by %.6g (rounding allowance %.3g)",
-								fmtTheta(theta), L0, fmtTheta(tp), name, sign*rel*sc, L1, L1-L0, allow), wit)
+						cs.Violation(sigBase+kindSig,
+							fmt.Sprintf("weighted log-likelihood at the estimate %s is %.17g; at the admissible point %s (direction %s, step %+.3g) it is %.17g: larger by %.6g (allowance %.3g = rounding of the sums + curvature x parameter resolution)",
+								fmtTheta(theta), L0, fmtTheta(sd.tp), pname(k), sd.delta, sd.L, sd.L-L0, allow), wit)
 					}
 				}
 			}
@@ -251,6 +303,11 @@ func runClosedScalar(cs *fw.Case, r *prng.Rand) {
 		class = spreadClass(d, 0)
 	}
 	sigBase := fmt.Sprintf("C16|%s|%s|%s", cs.Monitor, kind.name, class)
+	if kind.name == "normal" && illClass(class) != "" {
+		// one cell per conditioning class for everything built on the scalar
+		// normal estimator's one-pass moments (direct, batch, wrappers)
+		sigBase = "C16|closed|scalarNormal-moments|" + class
+	}
 	if err != nil {
 		cs.Violation(sigBase+"|constructor-error", err.Error(), wit)
 		return
@@ -519,7 +576,7 @@ func runClosedWrapper(cs *fw.Case, r *prng.Rand) {
 			return
 		}
 	}
-	if iid && kind.name == "poisson" {
+	if iid && (kind.name == "poisson" || kind.name == "geometric" || kind.name == "negativeBinomial") {
 		all := true
 		for q := 0; q < dim; q++ {
 			all = all && allZero(&dataset{X: asRows(cols[q]), w: d.w, wsum: d.wsum})
@@ -556,6 +613,9 @@ func runClosedWrapper(cs *fw.Case, r *prng.Rand) {
 		}
 	}
 	sigBase := fmt.Sprintf("C16|%s|%s:%s|%s", cs.Monitor, wrapper, kind.name, cls)
+	if kind.name == "normal" && illClass(cls) != "" {
+		sigBase = "C16|closed|scalarNormal-moments|" + cls
+	}
 	pname := func(k int) string {
 		pf := fam.(productFam)
 		q, kk := pf.locate(theta, k)
